@@ -333,6 +333,123 @@ func init() {
 		fr.safety(st, Neq(p.H, Int(0)), "nil *bytes.Buffer")
 		return ret(st, Scalar{st.gxContent(p.H)})
 	}
+	// reflect, as far as value comparison code needs it (datasource.DeepEqual): a reflect.Value is an
+	// opaque token that remembers the interface value it was made from; Kind() is a function of the
+	// dynamic type (known for the basic types), Int/Uint/Float read the payload, DeepEqual on two
+	// strings is string equality and uninterpreted otherwise.
+	rvGet := func(st *State, v Value) (Iface, bool) {
+		o, ok := v.(Opaque)
+		if !ok || o.H == nil {
+			return Iface{}, false
+		}
+		iv, ok := st.ghost["reflect:"+o.H.String()].(Iface)
+		return iv, ok
+	}
+	rvNew := func(st *State, iv Iface, t types.Type) Value {
+		h := st.eng.freshHandle("rv")
+		st.ghost["reflect:"+h.String()] = iv
+		return Opaque{H: h, T: t}
+	}
+	basicKinds := []struct {
+		t *types.Basic
+		k int64
+	}{{types.Typ[types.Bool], 1}, {types.Typ[types.Int], 2}, {types.Typ[types.Int8], 3}, {types.Typ[types.Int16], 4}, {types.Typ[types.Int32], 5}, {types.Typ[types.Int64], 6},
+		{types.Typ[types.Uint], 7}, {types.Typ[types.Uint8], 8}, {types.Typ[types.Uint16], 9}, {types.Typ[types.Uint32], 10}, {types.Typ[types.Uint64], 11}, {types.Typ[types.Uintptr], 12},
+		{types.Typ[types.Float32], 13}, {types.Typ[types.Float64], 14}, {types.Typ[types.String], 24}}
+	kindOf := func(st *State, iv Iface) *Term {
+		if iv.Dyn != nil {
+			switch u := under(iv.Dyn).(type) {
+			case *types.Basic:
+				for _, bk := range basicKinds {
+					if bk.t.Kind() == u.Kind() {
+						return Int(bk.k)
+					}
+				}
+			case *types.Pointer:
+				return Int(22)
+			case *types.Slice:
+				return Int(23)
+			case *types.Struct:
+				return Int(25)
+			case *types.Map:
+				return Int(21)
+			}
+			return UF("reflect.kind", SInt, st.eng.tidOf(iv.Dyn))
+		}
+		r := UF("reflect.kind", SInt, iv.Tid)
+		for i := len(basicKinds) - 1; i >= 0; i-- {
+			r = Ite(Eq(iv.Tid, st.eng.tidOf(basicKinds[i].t)), Int(basicKinds[i].k), r)
+		}
+		return Ite(Eq(iv.Tid, Int(0)), Int(0), r)
+	}
+	models["reflect.ValueOf"] = func(fr *Frame, st *State, args []Value, sig *types.Signature) []Outcome {
+		iv, ok := args[0].(Iface)
+		if !ok {
+			fail("reflect.ValueOf of %T", args[0])
+		}
+		return ret(st, rvNew(st, iv, sig.Results().At(0).Type()))
+	}
+	models["(reflect.Value).Kind"] = func(fr *Frame, st *State, args []Value, sig *types.Signature) []Outcome {
+		iv, ok := rvGet(st, args[0])
+		if !ok {
+			return ret(st, Scalar{Var(st.eng.fresh("reflect.kind"), SInt)})
+		}
+		return ret(st, Scalar{kindOf(st, iv)})
+	}
+	models["(reflect.Value).Elem"] = func(fr *Frame, st *State, args []Value, sig *types.Signature) []Outcome {
+		h := st.eng.freshHandle("rv.elem")
+		tid := UF("tid", SInt, h)
+		st.assume(Le(Int(0), tid))
+		return ret(st, rvNew(st, Iface{Tid: tid, Box: h}, sig.Results().At(0).Type()))
+	}
+	models["(reflect.Value).Interface"] = func(fr *Frame, st *State, args []Value, sig *types.Signature) []Outcome {
+		iv, ok := rvGet(st, args[0])
+		if !ok {
+			return ret(st, st.freshValue(sig.Results().At(0).Type(), "rv.iface"))
+		}
+		return ret(st, iv)
+	}
+	payload := func(fr *Frame, st *State, args []Value, sig *types.Signature) []Outcome {
+		iv, ok := rvGet(st, args[0])
+		if ok && iv.Dyn != nil {
+			if sc, isSc := iv.V.(Scalar); isSc && sc.T.Sort.Name == "Int" {
+				return ret(st, sc)
+			}
+		}
+		if ok && iv.Dyn == nil {
+			return ret(st, Scalar{UF("val_Int", SInt, iv.Box)})
+		}
+		return ret(st, Scalar{Var(st.eng.fresh("rv.num"), SInt)})
+	}
+	models["(reflect.Value).Int"] = payload
+	models["(reflect.Value).Uint"] = payload
+	models["(reflect.Value).Float"] = payload
+	models["reflect.DeepEqual"] = func(fr *Frame, st *State, args []Value, sig *types.Signature) []Outcome {
+		a, ok1 := args[0].(Iface)
+		b, ok2 := args[1].(Iface)
+		if !ok1 || !ok2 {
+			return ret(st, Scalar{Var(st.eng.fresh("reflect.deepequal"), SBool)})
+		}
+		strT := st.eng.tidOf(types.Typ[types.String])
+		sideTid := func(x Iface) *Term {
+			if x.Dyn != nil {
+				return st.eng.tidOf(x.Dyn)
+			}
+			return x.Tid
+		}
+		sideStr := func(x Iface) *Term {
+			if x.Dyn != nil {
+				if sc, ok := x.V.(Scalar); ok && sc.T.Sort.Name == "String" {
+					return sc.T
+				}
+				return Str("")
+			}
+			return UF("val_String", SString, x.Box)
+		}
+		ta, tb := sideTid(a), sideTid(b)
+		unk := Var(st.eng.fresh("reflect.deepequal"), SBool)
+		return ret(st, Scalar{Ite(And(Eq(ta, strT), Eq(tb, strT)), Eq(sideStr(a), sideStr(b)), unk)})
+	}
 	// context.WithValue(parent, key, val): a new context whose Value(key) is val (other keys: unknown)
 	models["context.WithValue"] = func(fr *Frame, st *State, args []Value, sig *types.Signature) []Outcome {
 		parent := args[0].(Iface)
